@@ -331,7 +331,20 @@ func (m *Message) WriteToStreamWithRetry(writer io.Writer, stream, retries uint)
 	}
 }
 
+// exclusiveWriter is implemented by connections that can keep the messages
+// of other goroutines out while one message is being written: a message
+// that is resumed after a temporary error must not find another writer's
+// message between its two parts.
+type exclusiveWriter interface {
+	lockMessage()
+	unlockMessage()
+}
+
 func writeRetry(w io.Writer, b []byte, retries uint) (n int, err error) {
+	if xw, ok := w.(exclusiveWriter); ok {
+		xw.lockMessage()
+		defer xw.unlockMessage()
+	}
 	var wn int
 	for {
 		wn, err = w.Write(b)
@@ -350,6 +363,10 @@ func writeRetry(w io.Writer, b []byte, retries uint) (n int, err error) {
 }
 
 func writeStreamRetry(w MultistreamWriter, b []byte, stream, retries uint) (n int, err error) {
+	if xw, ok := w.(exclusiveWriter); ok {
+		xw.lockMessage()
+		defer xw.unlockMessage()
+	}
 	var wn int
 	for {
 		wn, err = w.WriteStream(b, stream)
